@@ -8,6 +8,7 @@ C04.4  diagnostics are built in one place from one file value
 """
 import collections
 import os
+import json
 import re
 from entry import reachable
 from facts import walk, strip_block, is_panic_macro_node, WASM
@@ -366,6 +367,11 @@ def keyed_search(F, f):
     return False
 
 
+def not_residual(ty):
+    """value provenance does not run through the error half of `?` (a Result<Infallible, E> carries no payload)"""
+    return not re.match(r"^(&(mut )?)?std::result::Result<std::convert::Infallible,", ty or "") and not re.match(r"^(&(mut )?)?std::option::Option<std::convert::Infallible>", ty or "")
+
+
 def lookup_returning(F, fns):
     """least fixpoint: local functions whose return value may derive from a table lookup
     (directly or through another such function)"""
@@ -382,7 +388,7 @@ def lookup_returning(F, fns):
                 continue
             if g not in flows:
                 fl = FnFlow(f)
-                flows[g] = Origins(fl).of_local(0)
+                flows[g] = Origins(fl, keep=not_residual).of_local(0)
             for o in flows[g]:
                 if o[0] != "call":
                     continue
@@ -404,7 +410,7 @@ def lookup_returning(F, fns):
     return R
 
 
-SCALAR = re.compile(r"^(bool|\(\)|usize|u32|u64|i64|i32|isize|f64|std::string::String|&str|subtyping::semtype::IsEmptyStatus|subtyping::subtype::SubtypeCheck\w*)$")
+SCALAR = re.compile(r"^(bool|\(\)|usize|u32|u64|i64|i32|isize|f64|std::string::String|&str|subtyping::(?:semtype::)?IsEmptyStatus|subtyping::subtype::SubtypeCheck\w*)$")
 
 
 def scalar_output(f):
@@ -474,7 +480,7 @@ def resolve_edges(F, scc_of, reach):
                 continue
             if flow is None:
                 flow = FnFlow(f)
-                O = Origins(flow)
+                O = Origins(flow, keep=not_residual)
             looked = None
             for a in c.term["args"]:
                 looked = find_lookup(F, f, O, a, R)
@@ -490,6 +496,8 @@ def marked_sites(F, scc_of):
     not a local accumulator): the recognised shape of a visited-set / memo cut"""
     out = {}
     created = {}
+    mark_owner = {}
+    site_mark = {}
     for g in scc_of:
         f = F.fns[g]
         if not f.mir:
@@ -505,10 +513,18 @@ def marked_sites(F, scc_of):
                 fresh = any(o[0] == "call" and re.search(r"::(new|default|with_capacity)$", o[1]) for o in org)
                 if outlives and not fresh:
                     marks[c.bb] = c.path
+                    # the structure that owns the visited set (type of the parameter it is reached through)
+                    for o in org:
+                        if o[0] == "param":
+                            ty = (f.mir["locals"][o[1]].get("ty") or "").lstrip("&").replace("mut ", "").strip()
+                            h = type_head(ty)
+                            if h and "::" in h and not h.startswith("std::"):
+                                mark_owner.setdefault((g, c.bb), set()).add(h)
         for c in f.calls:
             for bi in dom.get(c.bb, ()):
                 if bi in marks and bi != c.bb:
                     out[(g, c.bb)] = marks[bi]
+                    site_mark[(g, c.bb)] = (g, bi)
         # closures created under a mark run under it: every creation site of the closure in this body that is
         # dominated by a mark hands the mark on to the closure's own call sites
         for bi, b in enumerate(f.mir["blocks"]):
@@ -524,7 +540,32 @@ def marked_sites(F, scc_of):
             continue
         for c in cf.calls:
             out.setdefault((cg, c.bb), ms[0] + " (dominating the closure's creation)")
+    # a visited set cuts a cycle only if it survives a trip round the cycle: when a member of the SCC holds the
+    # owning structure BY VALUE (it constructs a new one: `Converter::new(..)`, a struct literal) every trip may start
+    # with an empty set and the mark proves nothing
+    byval = collections.defaultdict(dict)
+    for g, i in scc_of.items():
+        f = F.fns[g]
+        if not f.mir:
+            continue
+        for l in f.mir["locals"][1:]:
+            ty = (l.get("ty") or "")
+            if ty.startswith("&") or ty.startswith("*"):
+                continue
+            h = type_head(ty)
+            if h:
+                byval[i].setdefault(h, g)
+    for site, mk in list(site_mark.items()):
+        owners = mark_owner.get(mk, ())
+        for h in owners:
+            holder = byval[scc_of[site[0]]].get(h)
+            if holder is not None:
+                RESET[site] = "the mark `%s` is kept in a `%s`, and %s (inside the same recursion) creates a fresh `%s`: the visited set is emptied on the way round" % (out.get(site), h, holder, h)
+                out.pop(site, None)
     return out
+
+
+RESET = {}
 
 
 def uncut(F, scc_of, marked, f, c, tgts):
@@ -701,6 +742,16 @@ def run(cx, rep):
             scc_of[g] = i
     n_edges = 0
     marked = marked_sites(F, scc_of)
+    # the structurally accepted route (a call taken only under `<name>.is_builtin()`, passing that name) cuts a cycle
+    # like a mark does: builtin names carry no user definition.  Registered here so that a caller of the function that
+    # contains it is not reported for the cycle that runs through it.
+    for g in scc_of:
+        f_ = F.fns[g]
+        if not f_.mir or "is_builtin" not in json.dumps([c_.path for c_ in f_.calls]):
+            continue
+        for c_ in f_.calls:
+            if (g, c_.bb) not in marked and any(scc_of.get(t) == scc_of[g] for t in (c_.local_target or [])) and value_guarded_builtin(F, f_, c_):
+                marked[(g, c_.bb)] = "taken only under `<looked-up name>.is_builtin()`"
     accepted_edges = {e["key"]: e for e in cx.table("c04_accepted_recursion.json")["edges"]}
     ordinal = collections.Counter()
     for f, flow, c, tgts, looked in resolve_edges(F, scc_of, reach):
@@ -726,8 +777,8 @@ def run(cx, rep):
             rep.ob("C04.3a", key, True, sample={"edge": key, "lookup": looked[1], "accepted_because": accepted_edges[key]["reason"]})
             continue
         rep.ob("C04.3a", key, not bad,
-               "recursive call %s -> %s passes a value obtained from a table lookup (%s) and some cycle through this call passes no visited/memo mark: a cycle in the user's definitions recurses until the stack overflows" % (
-                   f.id, tgts[0], looked[1]),
+               "recursive call %s -> %s passes a value obtained from a table lookup (%s) and some cycle through this call passes no visited/memo mark%s: a cycle in the user's definitions recurses until the stack overflows" % (
+                   f.id, tgts[0], looked[1], (" (" + RESET[(f.id, c.bb)] + ")") if (f.id, c.bb) in RESET else ""),
                "%s:%s" % (c.file, c.line), sample={"edge": key, "lookup": looked[1], "cut": mark})
     rep.ob("C04.3a", "sccs", True, sample={"recursive_sccs": len(sccs), "largest": max(len(c) for c in sccs) if sccs else 0, "resolve_edges": n_edges})
     rep.floor("C04.3a", "recursive SCCs", len(sccs), 30)
